@@ -66,120 +66,104 @@ def r_models(ctx: Ctx, model, tr):
                nontrivial_key=("zero", name))
 
 
-def r_point(ctx: Ctx, model, tr):
-    ctx.rule("S-point [ALG, stencil]: Henry continuation, chord integrals per segment, segment count, last partial segment, "
-             "same unit arguments for data and interpolation, argument-only refusal")
+def r_point(ctx: Ctx, model, tr=None):
+    """PointIsotherm.spreading_pressure_at interpreted on a four-point isotherm with symbolic data (P_i, L_i), a symbolic query
+    pressure and the interpolated loading as an opaque value; every outcome of the comparisons `P_i < p` and of the range guard is
+    explored.  For k = count(P_i < p) the result must be the exact integral of the piecewise-linear interpolant continued to the
+    origin by Henry's law (closed form of each chord integral: s*dP + c*ln(P_hi/P_lo))."""
+    from ..absint import Obj, UnknownBool
+    from ..domain import make_interp
+    from ..libsum import Vec, install_vec
+    ctx.rule("S-point [ALG]: for every number k of data points below p the result is L0/P0*p (k = 0) or L0 + sum of the chord integrals of "
+             "the k-1 full segments + the chord integral from P_(k-1) to (p, loading_at(p)); data and interpolated loading are read with the "
+             "caller's branch and unit arguments; without interp_fill the only refusal is p > max(P); with interp_fill nothing is refused")
     ci = model.cls("pygaps.core.pointisotherm.PointIsotherm")
     fi = ci.methods.get("spreading_pressure_at")
     if fi is None:
         raise AnalysisError("anchor missing: PointIsotherm.spreading_pressure_at")
-    P, L = ArraySym("P"), ArraySym("L", positive=False)     # loadings may be zero
-    calls = []
-    nat = tr.sym("n_at")
-
-    def stub(name, result):
-        def f(args, kwargs):
-            calls.append((name, args, dict(kwargs)))
-            return result
-        return f
-    mc = SelfCtx(ci, attrs={"pressure_unit": "<unit>"},
-                 stubs={"pressure": stub("pressure", P), "loading": stub("loading", L), "loading_at": stub("loading_at", nat)})
-    p = tr.sym("p")
-    unit_args = {k: tr.sym("arg_" + k) for k in ("pressure_unit", "pressure_mode", "loading_unit", "loading_basis", "material_unit", "material_basis")}
-    fill = tr.sym("arg_interp_fill")
-    tr.definitions = {}
-    env_args = [p, "BRANCH"] + [unit_args[k] for k in ("pressure_unit", "pressure_mode", "loading_unit", "loading_basis", "material_unit", "material_basis")] + [fill]
-    params = fi.params()[1:]
-    if params[:2] != ["pressure", "branch"] or set(params[2:]) != set(unit_args) | {"interp_fill"}:
-        raise AnalysisError(f"spreading_pressure_at signature changed: {params}")
-    argmap = {"pressure": p, "branch": "BRANCH", "interp_fill": None, **unit_args}
-    from ..alg import SymbolicBranch
-    try:
-        total = tr.method(mc, "spreading_pressure_at", [argmap[x] for x in params])
-    except SymbolicBranch as sb:
-        ctx.ob(False, Finding("C11.S-point", fi.where, f"point|data-dependent-branch",
-                              f"line {sb.node.lineno}: `if {sb.src}:` makes the integral depend on the data in a way that is neither the "
-                              "out-of-range refusal nor the Henry branch below the first point: the result is no longer the integral of "
-                              "the piecewise-linear interpolant continued to the origin by Henry's law"))
-        return
-    env = tr.last_env
-    # (1) reads: same branch and unit arguments everywhere
-    by = {c[0]: c for c in calls}
-    ok_reads = {"pressure", "loading", "loading_at"} <= set(by)
-    if ok_reads:
-        kp, kl, ka = by["pressure"][2], by["loading"][2], by["loading_at"][2]
-        ok_reads = kp.get("branch") == "BRANCH" and kl.get("branch") == "BRANCH" and ka.get("branch") == "BRANCH" \
-            and all(kp.get(k) == unit_args[k] for k in ("pressure_unit", "pressure_mode")) \
-            and all(kl.get(k) == unit_args[k] for k in ("loading_unit", "loading_basis", "material_unit", "material_basis")) \
-            and all(ka.get(k) == unit_args[k] for k in unit_args) and by["loading_at"][1][0] == p
-    ctx.ob(bool(ok_reads), Finding("C11.S-point", fi.where, "point|reads",
-                                   f"the data (pressure/loading) and the interpolated loading must be read with the caller's branch and the same "
-                                   f"unit arguments; calls: {[(c[0], sorted(map(str, c[2]))) for c in calls]}"),
-           nontrivial_key=("point", "reads"))
-    # (2) refusal guard depends on arguments only
-    guards = env.get("__guards__", [])
-    ok_guard = len(guards) == 1
-    ctx.ob(ok_guard, Finding("C11.S-point", fi.where, "point|guard", f"expected one out-of-range refusal, found {len(guards)}"),
-           nontrivial_key=("point", "guard"))
-    # (2b) the refusal (interp_fill not given) covers pressures above the last data point only: below the first point the
-    #      algorithm integrates Henry's law (obligation 3), so a refusal there would make that part of the domain unanswerable
-    if ok_guard:
-        g = guards[0][0]
-        rels = list(g.args) if isinstance(g, sp.Or) else [g]
-        above = [r for r in rels if isinstance(r, (sp.StrictGreaterThan, sp.GreaterThan)) and r.lhs == p and str(r.rhs) == "max(P)"]
-        other = [r for r in rels if r not in above]
-        ctx.ob(len(above) == 1 and not other, Finding(
-            "C11.S-point", fi.where, "point|guard-region",
-            f"without interp_fill the method refuses when `{g}`; required: only `p > max(P)`. "
-            + ("A query below the first data point is refused although the spreading pressure there is the Henry's-law integral "
-               "L(0)/P(0)*p that the method itself computes" if other else "")),
-            nontrivial_key=("point", "guard-region"))
-    # (3) early return: Henry continuation
-    er = env.get("__early_returns__", [])
-    n_count = [k for k in tr.definitions]
-    ok_count = len(n_count) == 1 and tr.definitions[n_count[0]][1] == "Lt" and tr.definitions[n_count[0]][2] is P and tr.definitions[n_count[0]][3] == p
-    ctx.ob(ok_count, Finding("C11.S-point", fi.where, "point|segment-count",
-                             f"the number of points below p must be count(pressures < p); found {tr.definitions}"),
-           nontrivial_key=("point", "count"))
-    N = n_count[0] if n_count else None
-    ok_henry = len(er) == 1 and N is not None and er[0][0] == sp.Eq(N, 0) and decide_zero(er[0][1] - L[0] / P[0] * p)[0] == "zero"
-    ctx.ob(bool(ok_henry), Finding("C11.S-point", fi.where, "point|henry-continuation",
-                                   f"below the first point the result must be L(0)/P(0)*p (Henry's law); found {er}"),
-           nontrivial_key=("point", "henry"), sample={"rule": "S-point", "obligation": "Pi(p<P0) == L0/P0*p", "derived": str(er)})
-    # (4) loop: full segments i = 0 .. N-2, each the exact chord integral
-    loops = env.get("__loops__", [])
-    ok_loop = len(loops) == 1 and N is not None and len(loops[0]["range"]) == 1 and sp.simplify(loops[0]["range"][0] - (N - 1)) == 0 \
-        and "area" in loops[0]["increments"]
-    ctx.ob(ok_loop, Finding("C11.S-point", fi.where, "point|loop-range",
-                            f"the full segments must be i in range(count - 1); found {[l['range'] for l in loops]}"),
-           nontrivial_key=("point", "range"))
-    x = sp.Symbol("x", positive=True)
-    if ok_loop:
-        i = loops[0]["var"]
-        inc = loops[0]["increments"]["area"]
-        a, b = P[i], P[i + 1]
-        slope = (L[i + 1] - L[i]) / (b - a)
-        chord = L[i] + slope * (x - a)
-        exact = sp.integrate(sp.expand(chord / x), (x, a, b))
-        verdict, wit = decide_zero(sp.simplify(inc - exact))
-        ctx.ob(verdict == "zero", Finding("C11.S-point", fi.where, "point|segment-integral",
-                                          f"the loop adds {inc} per segment; the integral of the chord through the two points over x is {sp.simplify(exact)} (witness {wit})"),
-               nontrivial_key=("point", "segment"), sample={"rule": "S-point", "obligation": "segment term == integral(chord/x)", "derived": str(inc)})
-    # (5) total = L(0) + loop sum + last partial segment to (p, loading_at(p))
-    if isinstance(total, sp.Basic) and N is not None:
-        k = N - 1
-        slope = (nat - L[k]) / (p - P[k])
-        chord = L[k] + slope * (x - P[k])
-        last = sp.integrate(sp.expand(chord / x), (x, P[k], p))
-        want = L[0] + tr.sym("area_loopsum", real=True) + last
-        verdict, wit = decide_zero(sp.simplify(total - want))
-        ctx.ob(verdict == "zero", Finding("C11.S-point", fi.where, "point|total",
-                                          f"the result must be L(0) [area under Henry's law up to P(0)] + full segments + the chord integral from "
-                                          f"P(count-1) to p; derived {total} (witness {wit})"),
-               nontrivial_key=("point", "total"))
-    else:
-        ctx.ob(False, Finding("C11.S-point", fi.where, "point|total", f"result is {total!r}"))
-    # first segment: H * P(0) == L(0) holds by construction of H = L(0)/P(0): checked through the Henry obligation above
+    NP = 4
+    Sy = lambda nm: sp.Symbol(nm, positive=True)
+    P = [Sy(f"P{i}") for i in range(NP)]
+    L = [sp.Symbol(f"L{i}", nonnegative=True) for i in range(NP)]      # an uptake may be exactly zero (blank first point)
+    p, nat, pmax = Sy("p"), Sy("n_at"), Sy("Pmax")
+    unit_args = {k: f"<{k}>" for k in ("pressure_unit", "pressure_mode", "loading_unit", "loading_basis", "material_unit", "material_basis")}
+    npaths = {"ok": 0, "raise": 0}
+    for fill in (None, sp.Integer(0)):
+        I = make_interp(model)
+        install_vec(I)
+        I.sympy_mode = True
+        calls = []
+        I.libmeth[("Vec", "max")] = lambda I, v, a, k, n: pmax
+        I.libmeth[("Vec", "min")] = lambda I, v, a, k, n: Sy("Pmin")
+        for nm_ in ("numpy.max", "numpy.amax", "builtins.max"):
+            I.ext[nm_] = (lambda old: lambda I, a, k, n: pmax if a and isinstance(a[0], Vec) else old(I, a, k, n))(I.ext.get(nm_))
+        I.ext["numpy.log"] = lambda I, a, k, n: sp.log(a[0])
+        iso = lambda: Obj(cls=ci, label="iso", attrs={"pressure_unit": "bar", "pressure_mode": "absolute", "l_interpolator": None, "p_interpolator": None})
+        for acc, val in (("pressure", lambda: Vec(list(P))), ("loading", lambda: Vec(list(L))), ("loading_at", lambda: nat)):
+            I.overrides[f"pygaps.core.pointisotherm.PointIsotherm.{acc}"] = \
+                (lambda acc, val: lambda I, fi_, env, n: (calls.append((acc, dict(env))), val())[1])(acc, val)
+        kw = dict(unit_args, branch="BRANCH", interp_fill=fill)
+        outs = I.explore(lambda I: (calls.clear(), I.call_func(fi, [p], dict(kw), None, self_obj=iso()), list(calls))[1:], max_paths=4000)
+        for oc in outs:
+            dl = list(oc.decisions)
+            above = [c for l_, c in dl if "Pmax" in l_]
+            if oc.kind == "raise":
+                npaths["raise"] += 1
+                ok = oc.exc.is_a("CalculationError") and not oc.exc.fault and fill is None and above and above[0] == 0
+                ctx.ob(ok, Finding("C11.S-point", fi.where, f"point|refusal|fill={'none' if fill is None else 'given'}",
+                                   f"spreading_pressure_at(interp_fill={fill}) raises {oc.exc} on path {dl}: the only refusal is CalculationError for "
+                                   "p > max(P) when no fill value is given (below the first point the Henry integral is the answer)"),
+                       nontrivial_key=("point", "refuse", fill is None, tuple(c for _, c in dl)))
+                continue
+            npaths["ok"] += 1
+            val, cl = oc.value
+            # count of data points below p decided on this path
+            cmp_dec = [(l_, c) for l_, c in dl if "Pmax" not in l_ and ("<" in l_ or ">" in l_)]
+            k = sum(1 for l_, c in cmp_dec if c == 0)
+            if fill is None and above:
+                ctx.ob(above[0] == 1, Finding("C11.S-point", fi.where, "point|guard-region", f"returns although p > max(P) was decided true: {dl}"))
+            if k == 0:
+                want = L[0] / P[0] * p
+            else:
+                want = L[0]
+                for i in range(k - 1):
+                    s_ = (L[i + 1] - L[i]) / (P[i + 1] - P[i])
+                    want += s_ * (P[i + 1] - P[i]) + (L[i] - s_ * P[i]) * sp.log(P[i + 1] / P[i])
+                s_ = (nat - L[k - 1]) / (p - P[k - 1])
+                want += s_ * (p - P[k - 1]) + (L[k - 1] - s_ * P[k - 1]) * sp.log(p / P[k - 1])
+            # a path on which the code itself tested a datum for zero is evaluated under that assumption
+            import re as _re
+            zero_sub = {}
+            for l_, c in dl:
+                m_ = _re.fullmatch(r"Eq\((L\d), 0\)", l_.strip())
+                if m_ and c == 0:
+                    zero_sub[sp.Symbol(m_.group(1), nonnegative=True)] = 0
+            if zero_sub and isinstance(val, sp.Basic):
+                val, want = val.subs(zero_sub), want.subs(zero_sub)
+            verdict, wit = decide_zero(sp.sympify(val) - want) if isinstance(val, sp.Basic) else ("nonzero", str(val))
+            ctx.ob(verdict == "zero", Finding("C11.S-point", fi.where, f"point|integral|points-below={k}",
+                                              f"with {k} data point(s) below p the result is {val}; required "
+                                              f"{'L0/P0*p (Henry)' if k == 0 else 'L0 + full chord integrals + chord integral to (p, loading_at(p))'} "
+                                              f"= {want} (witness {wit})"),
+                   nontrivial_key=("point", "integral", k, tuple(sorted(map(str, zero_sub)))), sample={"rule": "S-point", "points_below": k, "derived": str(val)[:200]} if fill is None else None)
+            by = {}
+            for nm_, env_ in cl:
+                by.setdefault(nm_, env_)
+            okr = {"pressure", "loading"} <= set(by) and (k == 0 or "loading_at" in by)
+            if okr:
+                okr = by["pressure"].get("branch") == "BRANCH" and by["loading"].get("branch") == "BRANCH" \
+                    and all(by["pressure"].get(u) == unit_args[u] for u in ("pressure_unit", "pressure_mode")) \
+                    and all(by["loading"].get(u) == unit_args[u] for u in ("loading_unit", "loading_basis", "material_unit", "material_basis"))
+                if k and okr:
+                    la = by["loading_at"]
+                    okr = la.get("branch") == "BRANCH" and all(la.get(u) == unit_args[u] for u in unit_args) and la.get("pressure") == p \
+                        and la.get("interp_fill") == fill
+            ctx.ob(bool(okr), Finding("C11.S-point", fi.where, "point|reads",
+                                      f"the data and the interpolated loading must be read with the caller's branch, unit arguments and fill value; "
+                                      f"calls: {[(c[0], {k_: v for k_, v in c[1].items() if k_ != 'self'}) for c in cl]}"),
+                   nontrivial_key=("point", "reads", k))
+    ctx.floor("spreading_pressure_at returning paths", npaths["ok"], 10)
+    ctx.floor("spreading_pressure_at refusing paths", npaths["raise"], 1)
 
 
 def run(ctx: Ctx):
